@@ -31,7 +31,13 @@ for k in sorted(res):
         r = res[k]
         m = re.search(r"oracle (\S+)", r.get("evidence", ""))
         cat.append(f"| {k} | {('`' + r['by_check'] + '` / ' + (m.group(1) if m else '?')) if r['status'] == 'killed' else '**' + r['status'] + '**'} |")
-text = "<!-- SEEDED-BEGIN -->\n| change | what it does (first line of its README) | caught by (quick tier, seed 0) |\n|---|---|---|\n" + "\n".join(rows) + "\n\nBuilt-in catalogue (`selftest/mutants.py`):\n\n| mutant | killed by |\n|---|---|\n" + "\n".join(cat) + "\n<!-- SEEDED-END -->"
+seeded_res = [res.get(n, {"status": "not run"}) for n in sorted(os.listdir(sd)) if os.path.exists(os.path.join(sd, n, "meta.json"))]
+own = sum(1 for n in sorted(os.listdir(sd)) if res.get(n, {}).get("status") == "killed" and res[n].get("by_check") == res[n].get("property"))
+cnt = {}
+for r in seeded_res:
+    cnt[r["status"]] = cnt.get(r["status"], 0) + 1
+summary = f"Seeded changes: {len(seeded_res)}; caught {cnt.get('killed', 0)} ({own} by the check of their own property, {cnt.get('killed', 0) - own} only by a sibling check), neutralised by a later repair {cnt.get('neutralised', 0)}, survived {cnt.get('survived', 0)}, not evaluated {cnt.get('not run', 0) + cnt.get('stale', 0)}."
+text = "<!-- SEEDED-BEGIN -->\n" + summary + "\n\n| change | what it does (first line of its README) | caught by (quick tier, seed 0) |\n|---|---|---|\n" + "\n".join(rows) + "\n\nBuilt-in catalogue (`selftest/mutants.py`):\n\n| mutant | killed by |\n|---|---|\n" + "\n".join(cat) + "\n<!-- SEEDED-END -->"
 p = os.path.join(HERE, "DESIGN.md")
 s = open(p).read()
 if "<!-- SEEDED-BEGIN -->" in s:
